@@ -13,9 +13,37 @@ R.field_types(
     _stop_error_code="Optional[int]",
 )
 
+# Reference model of the receive half (C10): gM is the offset -> byte map of the accepted frames (a later frame
+# overwrites the part of it that has not been delivered yet), g_reset records that a reset was accepted.
+# Representation invariant RInv ties the reassembly buffer and the received ranges to that model.
+R.ghost_field("QuicStreamReceiver", "gM", "map[int,int]")
+R.ghost_field("QuicStreamReceiver", "g_reset", "bool")
+
+R.spec(
+    """
+def rx_window(rx):
+    return forall(lambda x: implies(rx._ranges.gview[x], rx._buffer_start <= x and x < rx._buffer_start + len(rx._buffer)))
+
+def rx_bytes(rx):
+    return forall(lambda x: implies(rx._ranges.gview[x], at(rx._buffer, x - rx._buffer_start) == rx.gM[x]))
+"""
+)
+
 R.invariant(
     "QuicStreamReceiver",
-    ["rs_nonempty_ranges(self._ranges)", "rs_sorted(self._ranges)", "rs_view_sound(self._ranges)", "rs_view_complete(self._ranges)", "self._buffer_start >= 0"],
+    [
+        "rs_nonempty_ranges(self._ranges)", "rs_sorted(self._ranges)", "rs_view_sound(self._ranges)", "rs_view_complete(self._ranges)",
+        "self._buffer_start >= 0",
+        # buffered ranges lie inside the buffer window and hold the model's bytes
+        "rx_window(self)",
+        "rx_bytes(self)",
+        # everything contiguous has been delivered: the byte at the delivery position is never buffered
+        "not self._ranges.gview[self._buffer_start]",
+        # the buffer window ends at the highest offset seen (bounds the bytes held for reassembly, C07)
+        "self._buffer_start + len(self._buffer) == self.highest_offset",
+        # a final size fixed by a FIN is never above the highest offset seen
+        "self.g_reset or self._final_size is None or self._final_size <= self.highest_offset",
+    ],
 )
 
 # C07 / C10: a reset is refused exactly when it disagrees with an already fixed final size;
@@ -23,50 +51,81 @@ R.invariant(
 R.contract(
     "QuicStreamReceiver.handle_reset",
     raises={"FinalSizeError": "self._final_size is not None and final_size != self._final_size"},
-    modifies=["self._final_size", "self.is_finished"],
+    modifies=["self._final_size", "self.is_finished", "self.g_reset"],
     ensures=[
         "self._final_size == final_size",
         "self.is_finished",
         "self.highest_offset == old(self.highest_offset)",
         "self._buffer_start == old(self._buffer_start)",
+        "self.g_reset",
     ],
-    on_raise={"FinalSizeError": ["self._final_size == old(self._final_size)", "self.is_finished == old(self.is_finished)"]},
+    ghost_exit={"self.g_reset": "True"},
+    on_raise={"FinalSizeError": ["self._final_size == old(self._final_size)", "self.is_finished == old(self.is_finished)", "self.g_reset == old(self.g_reset)"]},
     prop=["C07", "C10"],
 )
 
 R.field_types("QuicStreamFrame", data="bytes", fin="bool", offset="int")
+R.field_types("StreamDataReceived", data="bytes", end_stream="bool", stream_id="Optional[int]")
 
-# _pull_data only moves the delivered prefix out of the reassembly buffer.
+# _pull_data moves the first buffered range out of the reassembly buffer when (and only when) it starts at the
+# delivery position.  Called in the middle of handle_frame, so it states the facts it needs itself.
 R.contract(
     "QuicStreamReceiver._pull_data",
+    use_invariant=False,
+    requires=[
+        "rs_nonempty_ranges(self._ranges)", "rs_sorted(self._ranges)", "rs_view_sound(self._ranges)", "rs_view_complete(self._ranges)",
+        "rx_window(self)",
+    ],
+    let={"hit": "len(RL(self._ranges)) > 0 and RL(self._ranges)[0].start == self._buffer_start"},
     modifies=["self._buffer", "self._buffer_start", "self._ranges._RangeSet__ranges", "self._ranges.gview", "self._ranges.gidx"],
     returns="bytes",
     ensures=[
-        "self._buffer_start >= old(self._buffer_start)",
-        "len(result) <= len(old(self._buffer))",
-        "implies(len(old(RL(self._ranges))) == 0 or old(RL(self._ranges))[0].start != old(self._buffer_start), len(result) == 0 and self._buffer_start == old(self._buffer_start))",
+        "rs_nonempty_ranges(self._ranges)", "rs_sorted(self._ranges)", "rs_view_sound(self._ranges)", "rs_view_complete(self._ranges)",
+        "implies(not hit, len(result) == 0 and self._buffer_start == old(self._buffer_start) and same(self._buffer, old(self._buffer)) and same(RL(self._ranges), old(RL(self._ranges))) and forall(lambda x: self._ranges.gview[x] == old(self._ranges.gview)[x]))",
+        "implies(hit, self._buffer_start == old(RL(self._ranges))[0].stop and len(result) == self._buffer_start - old(self._buffer_start))",
+        "implies(hit, forall(lambda k: implies(0 <= k < len(result), at(result, k) == at(old(self._buffer), k))))",
+        "implies(hit, len(self._buffer) == len(old(self._buffer)) - len(result) and forall(lambda k: implies(0 <= k < len(self._buffer), at(self._buffer, k) == at(old(self._buffer), k + len(result)))))",
+        "implies(hit, forall(lambda x: self._ranges.gview[x] == (old(self._ranges.gview)[x] and not (old(self._buffer_start) <= x < self._buffer_start))))",
+        "implies(hit, forall(lambda x: implies(old(self._buffer_start) <= x < self._buffer_start, old(self._ranges.gview)[x])))",
+        "not self._ranges.gview[self._buffer_start] or not hit and old(self._ranges.gview)[old(self._buffer_start)]",
     ],
     prop=["C10"],
 )
 
-# C07 / C10: FinalSizeError exactly when data lies beyond, or a FIN disagrees with, an already
-# fixed final size; a FIN fixes the final size; highest_offset is the running maximum.
+# C07 / C10: FinalSizeError exactly when data lies beyond, or a FIN disagrees with, an already fixed final size;
+# a FIN fixes the final size; highest_offset is the running maximum; the bytes delivered are the model's bytes
+# for the maximal contiguous run starting at the old delivery position, and (until a reset is accepted) the end
+# marker is reported exactly when the delivery position reaches the final size.
 R.contract(
     "QuicStreamReceiver.handle_frame",
     requires=["frame.offset >= 0"],
-    let={"fend": "frame.offset + len(frame.data)"},
+    let={"fend": "frame.offset + len(frame.data)", "o0": "frame.offset", "d0": "frame.data", "s0": "self._buffer_start", "fin0": "frame.fin",
+         "lo": "max(frame.offset, self._buffer_start)"},
     raises={
         "FinalSizeError": "self._final_size is not None and (fend > self._final_size or (frame.fin and fend != self._final_size))"
     },
     modifies=[
-        "self._final_size", "self.highest_offset", "self.is_finished", "self._buffer", "self._buffer_start",
+        "self._final_size", "self.highest_offset", "self.is_finished", "self._buffer", "self._buffer_start", "self.gM",
         "self._ranges._RangeSet__ranges", "self._ranges.gview", "self._ranges.gidx", "frame.data", "frame.offset",
     ],
+    ghost_exit={"self.gM": "amap(lambda x: at(d0, x - o0) if lo <= x < fend else old(self.gM)[x])"},
     ensures=[
-        "implies(old(frame.fin), self._final_size == fend)",
-        "implies(not old(frame.fin), self._final_size == old(self._final_size))",
+        "implies(fin0, self._final_size == fend)",
+        "implies(not fin0, self._final_size == old(self._final_size))",
         "self.highest_offset == max(old(self.highest_offset), fend)",
-        "self._buffer_start >= old(self._buffer_start)",
+        "self._buffer_start >= s0",
+        "self.g_reset == old(self.g_reset)",
+        # bytes: exactly the model's bytes of [old position, new position)
+        "implies(result is None, self._buffer_start == s0)",
+        "implies(result is not None, len(result.data) == self._buffer_start - s0)",
+        "implies(result is not None, forall(lambda k: implies(0 <= k < len(result.data), at(result.data, k) == self.gM[s0 + k])))",
+        # maximal contiguous run of (buffered before) or (this frame)
+        "forall(lambda x: implies(s0 <= x < self._buffer_start, old(self._ranges.gview)[x] or lo <= x < fend))",
+        "forall(lambda x: self._ranges.gview[x] == ((old(self._ranges.gview)[x] or lo <= x < fend) and x >= self._buffer_start))",
+        # end marker (until a reset is accepted)
+        "implies(not self.g_reset and result is not None, result.end_stream == (self._final_size is not None and self._buffer_start == self._final_size))",
+        "implies(not self.g_reset and result is None, not (self._final_size is not None and self._buffer_start == self._final_size))",
+        "self.is_finished == (old(self.is_finished) or (result is not None and result.end_stream))",
     ],
     on_raise={
         "FinalSizeError": [
@@ -74,8 +133,10 @@ R.contract(
             "self.highest_offset == old(self.highest_offset)",
             "self._buffer_start == old(self._buffer_start)",
             "self.is_finished == old(self.is_finished)",
+            "forall(lambda x: self.gM[x] == old(self.gM)[x])",
         ]
     },
+    max_paths=6000,
     prop=["C07", "C10"],
 )
 
@@ -195,7 +256,9 @@ R.contract(
         "self.highest_offset == 0 and not self.is_finished and not self.stop_pending",
         "self._buffer_start == 0 and len(self._buffer) == 0 and self._final_size is None",
         "len(RL(self._ranges)) == 0 and forall(lambda x: not self._ranges.gview[x])",
+        "not self.g_reset",
     ],
+    ghost_exit={"self.g_reset": "False"},
     prop=["C10", "C07"],
 )
 R.contract(
